@@ -557,8 +557,15 @@ class Interp:
                 k = self.eval(t.slice)
                 if isinstance(c, (list, dict)):
                     kk = concrete_int(k) if isinstance(c, list) else k
+                    if kk is None:
+                        raise Undecided("del with a symbolic index")
                     self.note_write(c, "del")
-                    del c[kk]
+                    try:
+                        del c[kk]
+                    except IndexError:
+                        raise RaiseEx("IndexError", "list assignment index out of range")
+                    except KeyError:
+                        raise RaiseEx("KeyError", str(kk))
                 else:
                     raise Undecided("del on non-list")
             else:
